@@ -97,24 +97,32 @@ Print Assumptions css_relex_idempotent.
    identifier "u"/"U" may be followed by "+" exactly when what follows the "+" is not a unicode range (range_fails:
    no or more than six hex digits/"?", or a "-" with no or more than six hex digits on either side) - the lexer
    then returns the identifier "u" alone.
-   The converse is css_tokens_shaped below, for the token types listed there. *)
+   The converse is css_tokens_shaped below. *)
 Theorem css_token_sequences : forall toks, seq_ok toks ->
   css_lex (concat (map snd toks)) = LexDone toks.
 Proof. exact css_token_sequences_proof. Qed.
 Print Assumptions css_token_sequences.
 
-(* C07 (converse of css_token_sequences, for part of the token types): every token the lexer returns whose type is
-   one of the types of shaped has the shape of that type, a predicate on the token's bytes alone (tok_spec's
-   constructor bodies without the follower conditions):
+(* C07 (converse of css_token_sequences): every token the lexer returns has the shape of its type, tok_shape, a
+   predicate on the token's bytes alone (tok_spec's constructor bodies without the conditions on what follows the
+   token; inside the token every escape is followed by a byte it tolerates):
    Whitespace: a non-empty run of whitespace bytes; Comment: "/*", a body without "*/", and then either "*/" or
    nothing (only the last token of the input can be of the second form, by css_tiling and css_relex_idempotent);
    Colon, Semicolon, Comma, the six brackets, the five match operators, Column, CDO, CDC: exactly their bytes
    (fixed_tokens); Delim: one byte; Number: the number diagram num_text ([+-]? (digits ('.' digits)? | '.' digits)
-   ([eE] [+-]? digits)?); Percentage: num_text followed by "%"; UnicodeRange: [uU] "+" and either 1..6 hex digits
-   and "?" (hex digits first), or two runs of 1..6 hex digits around "-" (ur_shape).
-   MISSING (shaped ty = false, nothing is claimed): Ident, CustomPropertyName, Function, AtKeyword, Hash, Dimension
-   (its unit is a name), String, BadString, URL, BadURL - the types whose text can contain escapes. *)
-Theorem css_tokens_shaped : forall d toks ty b, css_lex d = LexDone toks -> In (ty, b) toks ->
-  shaped ty = true -> tok_shape ty b.
+   ([eE] [+-]? digits)?); Percentage: num_text followed by "%"; Dimension: num_text followed by an ident_text or
+   custom_text (dim_shape); UnicodeRange: [uU] "+" and either 1..6 hex digits and "?" (hex digits first), or two
+   runs of 1..6 hex digits around "-" (ur_shape); String: a quote, a string body (plain bytes, escapes,
+   backslash-line-break continuations) and then the same quote, or nothing, or a lone backslash (the last two only
+   at the end of the input) (str_shape); BadString: a quote, a string body and a line-break byte (badstr_shape);
+   Ident: the name diagram ident_text (optional "-", a name-start byte or escape, then name bytes and escapes);
+   CustomPropertyName: "--" and a name body (custom_text); Function: an ident_text that is not "url" followed by
+   "(" (func_shape); AtKeyword: "@" and an ident_text or custom_text (at_shape); Hash: "#" and a non-empty name
+   body (hash_shape); URL: a name that reads "url", "(", whitespace, then an unquoted body or a quoted string,
+   whitespace, and ")" or the end of the input; BadURL: the four bad-url shapes of tok_spec (forbidden byte,
+   whitespace then more text, text after the string, bad string) with the remnants up to ")" or the end of the
+   input (url_like/arg_shape). The types the lexer never returns (Error, Empty, CustomPropertyValue) have shape
+   False.  Nothing is missing: the statement has no side condition on the type. *)
+Theorem css_tokens_shaped : forall d toks ty b, css_lex d = LexDone toks -> In (ty, b) toks -> tok_shape ty b.
 Proof. exact css_tokens_shaped_proof. Qed.
 Print Assumptions css_tokens_shaped.
